@@ -102,7 +102,9 @@ function genSem(rng, params) {
   const kind = rng.below(3);
   let expr, text, types;
   if (kind === 0) { // Exclude<A, B>: A a union, B one of its members / a widening / a literal subset / unrelated
-    const ms = Array.from({ length: 2 + rng.below(3) }, () => (rng.chance(1, 2) ? genLeaf(rng) : genSubTy(rng, 1 + rng.below(2), sc)));
+    // (sometimes a tuple whose rest is `unknown` / `any`: the `any[]` shortcut of the materialisation must keep the prefix)
+    const anyRest = () => [A("tuple"), Array.from({ length: 1 + rng.below(2) }, () => genLeaf(rng)), A(rng.pick(["unknown", "any"]))];
+    const ms = Array.from({ length: 2 + rng.below(3) }, () => (rng.chance(1, 8) ? anyRest() : rng.chance(1, 2) ? genLeaf(rng) : genSubTy(rng, 1 + rng.below(2), sc)));
     const a = [A("union"), ...ms];
     const r = rng.below(5);
     const b = r === 0 ? rng.pick(ms) : r === 1 ? mutateTy(rng, rng.pick(ms), sc) : r === 2 ? [A("union"), rng.pick(ms), rng.pick(ms)] : r === 3 ? genLeaf(rng) : genSubTy(rng, 1, sc);
@@ -123,7 +125,7 @@ function genSem(rng, params) {
       const k = keys.length === 1 ? keys[0] : [A("union"), ...keys];
       expr = [A("idx"), a, k]; text = `(${tsOf(a)})[${tsOf(k)}]`; types = [a, ...o[1].map((m) => m[2])];
     } else {
-      const a = rng.chance(1, 2) ? [A("array"), genSubTy(rng, 1, sc)] : [A("tuple"), Array.from({ length: 1 + rng.below(3) }, () => genSubTy(rng, 1, sc)), rng.chance(1, 3) ? genLeaf(rng) : A("none")];
+      const a = rng.chance(1, 2) ? [A("array"), rng.chance(1, 8) ? A("unknown") : genSubTy(rng, 1, sc)] : [A("tuple"), Array.from({ length: 1 + rng.below(3) }, () => genSubTy(rng, 1, sc)), rng.chance(1, 3) ? (rng.chance(1, 3) ? A(rng.pick(["unknown", "any"])) : genLeaf(rng)) : A("none")];
       const k = rng.chance(1, 2) ? A("number") : lit("n", String(rng.below(3)));
       expr = [A("idx"), a, k]; text = `(${tsOf(a)})[${tsOf(k)}]`; types = head(a) === "array" ? [a[1], a] : [...a[1], a];
     }
